@@ -81,12 +81,16 @@ def overNat (m : Option Nat) (d : Nat) : Bool :=
   | some m => decide (d > m)
   | none => false
 
-/-- `Channel.validate_duration`.  Note the order: the *requested* duration is
-compared with the limits, then rounded up to the clock. -/
+/-- `Channel.validate_duration`: the requested duration is compared with the limits,
+rounded up to the clock, and the rounded value compared with the maximum again
+(the last test is the repair of finding F12). -/
 def validateDuration (c : ChanCfg) (d : Nat) : Except Err Nat :=
   if d < c.minDur then .error .durTooShort
   else if overNat c.maxDur d then .error .durTooLong
-  else if d % c.clock ≠ 0 then .ok (d + (c.clock - d % c.clock))
+  else if d % c.clock ≠ 0 then
+    -- rounded up to the next clock multiple, which must still respect the maximum
+    if overNat c.maxDur (d + (c.clock - d % c.clock)) then .error .durTooLong
+    else .ok (d + (c.clock - d % c.clock))
   else .ok d
 
 /-- `_ChannelSchedule.adjust_duration`. -/
